@@ -24,7 +24,11 @@ AClasses == {"honest", "bit_flipped", "small_order", "small_order_forgery"}
 MClasses == {"same", "bit_flipped", "truncated", "extended"}
 Forms == {"detached", "combined", "SignedMessage", "IncrementalSigner"}
 
-Case == [r : RClasses, s : SClasses, a : AClasses, m : MClasses, signed : Modes, verified : Modes]
+\* how the presented signature was made: in one of the two modes over the message, or - the confusions a verifier with a
+\* "compatibility" fallback would fall for - in pure mode over the SHA-512 digest of the message (with or without the
+\* dom2 prefix in front of it)
+SignModes == Modes \cup {"pure_over_digest", "pure_over_dom2_digest"}
+Case == [r : RClasses, s : SClasses, a : AClasses, m : MClasses, signed : SignModes, verified : Modes]
 
 \* "small_order_forgery": R and A small-order points and S = 0 chosen so that the equation holds for every message
 Consistent(c) == (c.r = "small_order_forgery") <=> (c.a = "small_order_forgery")
@@ -51,7 +55,9 @@ Deterministic == \A f, g \in Forms \ {"IncrementalSigner"}, md \in Modes : SigOf
 ASSUME OnlyHonestAccepted /\ StrictnessMatters /\ Deterministic
 \* single deviations from an honest signature (plus the forgery family), as the property enumerates them
 Single(c) == Cardinality({x \in {c.r, c.s, c.a, c.m} : x \notin {"honest", "same"}}) <= 1 \/ c.r = "small_order_forgery"
-ASSUME PrintT(ToJson({[case |-> c, algebraic |-> Algebraic(c), accept |-> Accept(c)] : c \in {d \in Case : Consistent(d) /\ Single(d)}}))
+\* the confusion modes are presented on their own (no second deviation on top)
+Plain(c) == c.r = "honest" /\ c.s = "honest" /\ c.a = "honest" /\ c.m = "same"
+ASSUME PrintT(ToJson({[case |-> c, algebraic |-> Algebraic(c), accept |-> Accept(c)] : c \in {d \in Case : Consistent(d) /\ Single(d) /\ (d.signed \notin Modes => Plain(d))}}))
 
 VARIABLE x
 Init == x = 0
